@@ -31,7 +31,15 @@ Proof. split; [refute | vm_compute; reflexivity]. Qed.
 Lemma refuted_plus_mul : refutes rules_orig w_plus_mul /\ parse (write rules_orig w_plus_mul) = None.
 Proof. split; [refute | vm_compute; reflexivity]. Qed.
 
-(* the same trees under the repaired rules *)
+(* props/C02/fix.patch: the sign shapes that were not Fortran are now read back; (-a)*b is still
+   written -a * b (PSyclone's own test requires it) *)
+Lemma patch_witnesses :
+  forallb (fun e => match parse (write rules_patch e) with Some t => expr_eqb t e | None => false end)
+          [w_pow; w_rel_chain; w_sign_deep; w_plus_mul] = true /\
+  refutes rules_patch w_neg_mul /\ refutes rules_patch w_not_rel.
+Proof. split; [vm_compute; reflexivity | split; refute]. Qed.
+
+(* the same trees under the complete repair *)
 Lemma fixed_witnesses :
   forallb (fun e => match parse (write rules_fixed e) with Some t => expr_eqb t e | None => false end)
           [w_pow; w_neg_mul; w_not_rel; w_rel_chain; w_sign_deep; w_plus_mul] = true.
@@ -53,18 +61,18 @@ Proof. vm_compute. reflexivity. Qed.
 Lemma refuted_lit_signed : forall R,
   parse (write R w_lit_signed) = None /\
   parse (write R (Lit (mkLit KInt "-1" PUndef))) = Some (Un Neg (Lit (mkLit KInt "1" PUndef))).
-Proof. intros [[] [] []]; split; vm_compute; reflexivity. Qed.
+Proof. intros [[] [] [] [] []]; split; vm_compute; reflexivity. Qed.
 Lemma refuted_step_kind : forall R,
   parse (write R w_step_kind) = Some (Acc "v" [Rng (v "i") (v "n") one_lit] None).
-Proof. intros [[] [] []]; vm_compute; reflexivity. Qed.
+Proof. intros [[] [] [] [] []]; vm_compute; reflexivity. Qed.
 
 (* the current writer: either it makes the repaired decisions, or one of the witnesses refutes it *)
 Lemma impl_status :
-  impl_rules = rules_fixed \/
+  (complete impl_rules = true /\ forall e, wf e = true -> parse (write impl_rules e) = Some e) \/
   exists e, In e [w_pow; w_neg_mul; w_not_rel; w_rel_chain] /\ refutes impl_rules e.
 Proof.
   first
-    [ left; reflexivity
+    [ left; split; [reflexivity | intros e; apply parse_write_complete; reflexivity]
     | right; exists w_pow; split; [cbn; tauto | refute]
     | right; exists w_neg_mul; split; [cbn; tauto | refute]
     | right; exists w_not_rel; split; [cbn; tauto | refute]
